@@ -47,6 +47,9 @@ func Generate(r *rand.Rand, profile string) *Scenario {
 	if profile == "unobs2" {
 		return generateUnobstructedMulti(r)
 	}
+	if profile == "chains" {
+		return generateChains(r)
+	}
 	if profile == "bindfail" || profile == "overhead" || profile == "nested" || profile == "sharers" {
 		return generateTight(r, profile)
 	}
@@ -1113,9 +1116,30 @@ func generateFlat(r *rand.Rand) *Scenario {
 		sc.Queues = append(sc.Queues, Queue{Name: "d2", Parent: 0, Prio: 100, GQ: -1, GL: -1, GW: pick(1, 2), CQ: -1, CL: -1, MQ: -1, ML: -1})
 		nd = 2
 	}
+	// sometimes a third level: mid-level queues between the departments and the leaves (the leaves of the two
+	// branches then diverge two levels above themselves)
+	parents := []int{}
+	for i := 1; i <= nd; i++ {
+		parents = append(parents, i)
+	}
+	if r.Intn(3) == 0 {
+		if nd == 1 && r.Intn(2) == 0 {
+			sc.Queues = append(sc.Queues, Queue{Name: "d2", Parent: 0, Prio: 100, GQ: -1, GL: -1, GW: pick(1, 2), CQ: -1, CL: -1, MQ: -1, ML: -1})
+			nd = 2
+		}
+		parents = nil
+		for i := 0; i < 2; i++ {
+			sc.Queues = append(sc.Queues, Queue{Name: fmt.Sprintf("m%d", i+1), Parent: 1 + i%nd, Prio: 100, GQ: pick(-1, 0, 1, 2, 3) * 1000, GL: -1,
+				GW: pick(1, 2), CQ: -1, CL: -1, MQ: -1, ML: -1})
+			if sc.Queues[len(sc.Queues)-1].GQ < -1 {
+				sc.Queues[len(sc.Queues)-1].GQ = -1
+			}
+			parents = append(parents, len(sc.Queues))
+		}
+	}
 	var leaves []int
 	for i := 0; i < pick(2, 2, 3); i++ {
-		sc.Queues = append(sc.Queues, Queue{Name: fmt.Sprintf("q%d", i+1), Parent: 1 + r.Intn(nd), Prio: 100, GQ: pick(0, 1, 1, 2) * 1000, GL: -1,
+		sc.Queues = append(sc.Queues, Queue{Name: fmt.Sprintf("q%d", i+1), Parent: parents[i%len(parents)], Prio: 100, GQ: pick(0, 1, 1, 2) * 1000, GL: -1,
 			GW: pick(1, 2, 3), CQ: -1, CL: -1, MQ: -1, ML: -1})
 		leaves = append(leaves, len(sc.Queues))
 	}
@@ -1447,6 +1471,80 @@ func generateUnobstructedMulti(r *rand.Rand) *Scenario {
 				pre = 1
 			}
 			addJob(cq, pick(50, 50, 75), pre, 0)
+		}
+	}
+	sc.Normalize()
+	return sc
+}
+
+
+// generateChains: closed systems whose queue tree is 2-3 separate chains (org -> dept -> team, one leaf per
+// chain, depth 1-3) with the same or slightly different quotas along a chain, so that two leaves diverge at the
+// top of the tree; one or two nodes, full or nearly full of single-pod jobs of 1-3 GPUs, several pending jobs per
+// leaf with a big one at the head of a queue. What decides here is how allocations are accounted and compared
+// level by level up the chains. 8 cycles.
+func generateChains(r *rand.Rand) *Scenario {
+	pick := func(vs ...int) int { return vs[r.Intn(len(vs))] }
+	sc := &Scenario{Class: "chains"}
+	sc.Cfg = Cfg{Placement: []string{"binpack", "spread"}[r.Intn(2)], Consolidation: pick(0, 0, 1), Signatures: pick(0, 1),
+		ConsReclaim: pick(0, 0, 1), SatMult: pick(1000, 1000, 1200), Cycles: 8, Env: "closed", FullHier: 1}
+	nn := pick(1, 1, 2)
+	g := pick(3, 4, 4, 6)
+	for i := 0; i < nn; i++ {
+		sc.Nodes = append(sc.Nodes, Node{Name: fmt.Sprintf("n%d", i+1), Cpu: 32000, Mem: 64000, Pods: 110, Gpus: g, GpuMem: 40000, Ready: 1})
+	}
+	nc := pick(2, 2, 3)
+	depth := pick(2, 3, 3)
+	var leaves []int
+	for c := 0; c < nc; c++ {
+		quota := pick(1, 2, 2, 3) * 1000
+		w := pick(1, 2, 2)
+		parent := 0
+		for d := 0; d < depth; d++ {
+			q := quota
+			if d < depth-1 && r.Intn(4) == 0 {
+				q = -1 // an unlimited ancestor now and then
+			}
+			sc.Queues = append(sc.Queues, Queue{Name: fmt.Sprintf("%s%d", []string{"org", "dept", "team"}[3-depth+d], c+1), Parent: parent, Prio: 100,
+				GQ: q, GL: -1, GW: w, CQ: -1, CL: -1, MQ: -1, ML: -1})
+			parent = len(sc.Queues)
+		}
+		leaves = append(leaves, parent)
+	}
+	free := make([]int, nn)
+	for i := range free {
+		free[i] = g
+	}
+	k := 0
+	add := func(leaf, size, prio, node, age int) {
+		k++
+		ls, phase := -1, "P"
+		if node > 0 {
+			ls, phase = 36000, "R"
+		}
+		sc.Jobs = append(sc.Jobs, Job{Name: fmt.Sprintf("j%d", k), Queue: leaf, Prio: prio, Preempt: 1, Min: 1, Age: age, LastStart: ls})
+		sc.Pods = append(sc.Pods, Pod{Name: fmt.Sprintf("j%d-p1", k), Job: k, Cpu: 500, Mem: 500, Gpu: size, Phase: phase, Node: node})
+	}
+	for ni := 0; ni < nn; ni++ {
+		leave := pick(0, 0, 0, 1)
+		for free[ni] > leave {
+			size := pick(1, 1, 2, 2, 3)
+			if size > free[ni] {
+				size = free[ni]
+			}
+			add(leaves[r.Intn(len(leaves))], size, pick(50, 50, 75), ni+1, 3600+60*r.Intn(60))
+			free[ni] -= size
+		}
+	}
+	for _, leaf := range leaves {
+		age := 3000
+		for i := 0; i < pick(0, 1, 2, 2); i++ {
+			size := pick(1, 1, 2, 3)
+			if i == 0 {
+				size = pick(1, 2, 3, 3) // often a big job at the head of the queue (older = first)
+			}
+			add(leaf, size, 50, 0, age)
+			age -= 300
 		}
 	}
 	sc.Normalize()
